@@ -105,9 +105,9 @@ def make_h(tier):
         if (ctx.flag("with_non_numeric") if nlit == 1 else True):
             lines += NON_NUMERIC[lang] + [""]
         for i in range(nlit):
-            spells = SPELL[lang] if i == 0 else SPELL[lang][1:3]
+            spells = SPELL[lang] if i == 0 else (SPELL[lang][1:3] if quick else SPELL[lang][:5])
             text, value, is_int = ctx.pick(f"lit{i}", spells)
-            cname = ctx.pick(f"ctx{i}", tuple(CTX[lang]) if i == 0 else tuple(CTX[lang])[:1])
+            cname = ctx.pick(f"ctx{i}", tuple(CTX[lang]) if i == 0 else (tuple(CTX[lang])[:1] if quick else tuple(CTX[lang])[:4]))
             tmpl, exempt = CTX[lang][cname]
             in_allowed = ctx.flag(f"allowed{i}")
             if in_allowed:
